@@ -1146,3 +1146,6 @@ m('I5-cached-fields-read-on-a-miss', 'C16', 'I5', 'StructSequenceGetFields/*iter
   """        const auto it = cache.find(type);
         if (it == cache.end()) [[likely]] {
             return py::reinterpret_borrow<py::tuple>(it->second);""")
+m('I4-entries-bound-test-turned-round', 'C16', 'I4', 'PyTreeSpec::FlattenIntoWithPathImpl/TupleGetItem[counter]', 'src/treespec/flatten.cpp',
+  """                        if (num_children >= node.arity) [[unlikely]] {""",
+  """                        if (num_children < node.arity) [[unlikely]] {""")
